@@ -56,6 +56,10 @@ structure Layout where
   /-- lower-case column letters in the reference of the cell at (row, col) -/
   cellLower : Nat → Nat → Bool
 
+/-- the `<dimension>` of the layout is a rectangle of the grid (it need not be related to the data) -/
+def Layout.DimOk (lay : Layout) : Prop :=
+  ∀ d, lay.dim = some d → d.sr < 1048576 ∧ d.sc < 16384 ∧ d.er < 1048576 ∧ d.ec < 16384
+
 /-- strictly increasing first components, all below `bound` -/
 def Increasing {α : Type} (bound : Nat) : Nat → List (Nat × α) → Prop
   | _, [] => True
@@ -141,13 +145,15 @@ def formulaEvents (p : Bool) : Option Bytes → List Ev
   | none => []
   | some f => [.start (q p nF) []] ++ (if f = [] then [] else [.text f]) ++ [.stop (q p nF)]
 
+/-- the `s` attribute -/
+def styleAttr (style : Option Bytes) : Attrs := match style with | some s => [(nS, s)] | none => []
+
 /-- one `<c>`; `cur` is the reader's column cursor when it reaches this element -/
 def renderCell (lay : Layout) (row col cur : Nat) (cs : CellSpec) : List Ev :=
   let explicit := lay.cellExplicit row col || col != cur
   let refAttr : Attrs := if explicit then [(nR, refName (lay.cellLower row col) row col)] else []
-  let styleAttr : Attrs := match cs.style with | some s => [(nS, s)] | none => []
   let ce := contentEvents lay.pfx cs.content
-  [.start (q lay.pfx nC) (refAttr ++ styleAttr ++ ce.1)] ++ formulaEvents lay.pfx cs.formula ++ ce.2 ++ [.stop (q lay.pfx nC)]
+  [.start (q lay.pfx nC) (refAttr ++ styleAttr cs.style ++ ce.1)] ++ formulaEvents lay.pfx cs.formula ++ ce.2 ++ [.stop (q lay.pfx nC)]
 
 def renderCells (lay : Layout) (row : Nat) : Nat → List (Nat × CellSpec) → List Ev
   | _, [] => []
